@@ -248,6 +248,11 @@ def Query.toA12? (A1 A2 : V3 K) (nn nx ny nz : K) : Query K → Option (K × K)
 def EofQuery (gam : K → K → K) (A1 A2 : V3 K) (nn nx ny nz : K) (q : Query K) : Option K :=
   (q.toA12? A1 A2 nn nx ny nz).map (fun a => gam a.1 a.2)
 
+/-- `E_gsf(a1=, a2=, a1vect=, a2vect=)`: fractional coordinates given relative to OTHER shift vectors `B1`, `B2`
+    (Cartesian) are converted to a position and back to the surface's own fractional coordinates. -/
+def otherBasisToA12? (A1 A2 B1 B2 : V3 K) (a : K × K) : Option (K × K) :=
+  posToA12? A1 A2 (a12ToPos B1 B2 a)
+
 /-! data-model record: energies are written divided by the unit factor `u` and read back times it -/
 
 structure GsfRecord (K : Type) where
@@ -349,6 +354,15 @@ def nonlocalFrom (dx : K) (d : List (V3 K)) : Nat → List K → K
   | m, α :: αs => α * nonlocalTerm dx m d + nonlocalFrom dx d (m + 1) αs
 
 def nonlocalEnergy (αs : List K) (x : List K) (d : List (V3 K)) : K := nonlocalFrom (gridStep x) d 1 αs
+
+/-! constructor: the Volterra solution expressed in its `[m, n, ξ]` frame (`M` has rows `m, n, ξ`) -/
+
+/-- `mnξ.dot(K_tensor.dot(mnξ.T))`. -/
+def frameK (M Kv : M3 K) : M3 K := M3.mul M (M3.mul Kv M.transpose)
+/-- `mnξ.dot(burgers)`. -/
+def frameB (M : M3 K) (b : V3 K) : V3 K := M3.mulVec M b
+/-- `np.matmul(mnξ, transform)`. -/
+def frameT (M T : M3 K) : M3 K := M3.mul M T
 
 /-- all settings of an SDVPN object that enter the energy. -/
 structure Settings (K : Type) where
